@@ -144,6 +144,12 @@ def catalogue(tk):
         for ts in ("2026-10-02T12:00:00", "2026-10-02T12:00:00Z", "yesterday", ""):
             a_ = {"device": "DEV", "name": vec, "timestamp": ts}
             out.append(("valid-write-odd-timestamp", session.xml(f"new{wk}Vector", a_, [one(wk, e1, v)]), {(vec, e1): [v], "required": (vec, e1)}, True))
+    if tk != "Light":
+        # an XML declaration in front of a valid write (Java / .NET writers emit one), naming whatever encoding
+        for enc in ("UTF-8", "ISO-8859-1", "x-user-defined", "UCS-2", "UTF-16", "utf-16le", "utf-32be", "cp037", "rot13", "hex", "zlib", "x-no-such-encoding"):
+            decl = f'<?xml version="1.0" encoding="{enc}"?>'
+            out.append(("valid-write-after-xml-declaration-naming-an-encoding", decl + newvec(wk, "DEV", vec, [one(wk, e1, v)]), {(vec, e1): [v], "required": (vec, e1)}, True))
+            out.append(("valid-write-after-xml-declaration-naming-an-encoding", decl + "\n" + newvec(wk, "DEV", vec, [one(wk, e1, v)]), {(vec, e1): [v], "required": (vec, e1)}, True))
     out.append(("getProperties-unknown", session.xml("getProperties", {"version": "1.7", "device": "NOPE", "name": vec}), {}, True))
     out.append(("enableBLOB-unknown-device", session.xml("enableBLOB", {"device": "NOPE", "name": vec}, text="Also"), {}, True))
     out.append(("missing-device-attribute", newvec(wk, None, vec, [one(wk, e1, v)]), {}, False))
